@@ -46,7 +46,9 @@ def oracle_trace(ctx, case, trace, followup=False, static=None):
     acc = {}  # minutes accumulated for the running survey of a site
     booked = {}  # site -> minutes its unfinished survey has on the report (from the reports' minutes, i.e. the
     #              HISTORY of the survey; "interrupted" = booked > 0 and not complete, never the in-progress flag)
-    n_cap = None if kind == "stationary" else case["crews"] * case["_cap_used"]
+    # crew_count 0 = LDAR-Sim's own (documented) estimate, computed from the configuration by the harness
+    n_crews = case["crews"] if case["crews"] > 0 else (case.get("_crews_estimate") or case.get("_crews_used") or 0)
+    n_cap = None if kind == "stationary" else n_crews * case["_cap_used"]
     for k, rec in enumerate(trace):
         if rec["crash"]:
             yr_missing = static is not None and any(rec["date"][0] not in st["sim_years"] for st in static)
